@@ -304,8 +304,13 @@ def main(argv):
 		path = argv[argv.index("--replay") + 1]
 		with open(path) as fh:
 			case = json.load(fh)
-		units = [{"cls": "__replay__", "case": case,
-			"env": getattr(mod, "replay_env", lambda c: {})(case)}]
+		if hasattr(mod, "replay_env"):
+			renv = mod.replay_env(case)
+		else:
+			renv = dict(getattr(mod, "REPLAY_ENV", {}))
+			if "boundscheck" in str(case.get("class", "")):
+				renv["NUMBA_BOUNDSCHECK"] = "1"
+		units = [{"cls": "__replay__", "case": case, "env": renv}]
 	else:
 		units = mod.plan(tier, seed)
 	timeout = int(os.environ.get("VERIF_CHUNK_TIMEOUT", "0")) or getattr(mod,
